@@ -204,6 +204,9 @@ def part_exits(ctx, pairs, cfgs, per_type_cfgs):
     for (t, vals, src, cfg), res in zip(jobmeta, results):
         n += res["n"]
         dist[cfg.name] = dist.get(cfg.name, 0) + res["n"]
+        if res.get("skipped"):
+            ctx.corr["skipped_too_large"] = ctx.corr.get("skipped_too_large", 0) + 1
+            continue
         if res["error"]:
             report(ctx, "correspondence-broken", f"exit harness could not run: {res['error'][:200]}",
                    {"type": A.eth_ty(t), "config": cfg.name, "error": res["error"], "source": src}, "exit-harness-error")
